@@ -84,6 +84,18 @@ theorem C11_order_and_grouping_independent {cfg : Config} {h : Heap} (hi : Inv c
     rw [g2, nkOfRef_ext ge hv, h2, hunion]
   rw [nkOfRef_inj gi gv (ge.valid hv) this]
 
+/-- **Re-qualifying is idempotent.**  Asking `get_qualified(q, c)` of the node `c` filed under `(acc, t)` with qualifiers it
+    already carries (`acc ∪ q = acc`, in particular `q = acc`) answers `c` itself — no second node for `const const T`. -/
+theorem C11_requalify_idempotent {cfg : Config} {h : Heap} (hi : Inv cfg h) {t c : Ref} {acc q : Nat} (hq : q ≠ 0)
+    (ht : t.valid h = true) (hut : qualView h t = none) (hacc : acc ≠ 0)
+    (hk : nkOfRef h c = some (.qualifieds, [.num acc, .node t])) (hcv : c.valid h = true) (hsub : acc ||| q = acc) :
+    (exec0 cfg h (.qualified q c)).2 = some c := by
+  obtain ⟨r, hres, hkr, hrv, hi1, he1⟩ := qual_step hi hq ht hut (Or.inr ⟨hacc, hk, hcv⟩)
+  rw [hres]
+  have : nkOfRef (exec0 cfg h (.qualified q c)).1 r = nkOfRef (exec0 cfg h (.qualified q c)).1 c := by
+    rw [hkr, nkOfRef_ext he1 hcv, hk, hsub]
+  rw [nkOfRef_inj hi1 hrv (he1.valid hcv) this]
+
 /-- The states reached by histories (at L1, any injective `addr`) are admissible starting points for the two theorems above. -/
 theorem C11_reachable_admissible {addr : Ref → Int} (hinj : Injective addr) (cfg : Config) (reqs : List Req) :
     Inv cfg (run1 addr cfg {} reqs).1.heap := reach1_inv hinj cfg reqs
@@ -119,6 +131,9 @@ example : answers1 defaultAddr exCfg11
     [.qualified 1 exInt11, .qualified 2 (.dyn 0), .qualified 3 exInt11, .qualified 2 exInt11, .qualified 1 (.dyn 2),
      .qualified 0 exInt11, .qualified 4 (.dyn 1)]
     = [some (.dyn 0), some (.dyn 1), some (.dyn 1), some (.dyn 2), some (.dyn 1), none, some (.dyn 3)] := by decide +kernel
+/-- `const` on `const int`, and `const` on `const volatile int`: the node asked about is the answer. -/
+example : answers1 defaultAddr exCfg11 [.qualified 1 exInt11, .qualified 1 (.dyn 0), .qualified 2 (.dyn 0), .qualified 1 (.dyn 1)]
+    = [some (.dyn 0), some (.dyn 0), some (.dyn 1), some (.dyn 1)] := by decide +kernel
 example : qualView (run1 defaultAddr exCfg11 {} [.qualified 1 exInt11, .qualified 2 (.dyn 0), .qualified 4 (.dyn 1)]).1.heap (.dyn 2)
     = some (7, exInt11) := by decide +kernel
 example : (qualChain exCfg11 #[] exInt11 [1, 4, 2]).2 = (qualChain exCfg11 (qualChain exCfg11 #[] exInt11 [1, 4, 2]).1 exInt11 [6, 1]).2 := by
